@@ -64,6 +64,7 @@ static void report(const char *what) {
     if (nsig < 256) { strcpy(sigs[nsig], sig); strncpy(sigcase[nsig], cur_cs, 259); sigcnt[nsig] = 1; nsig++; }
 }
 static int verbose;
+static const char *exp_str; static int exp_mustfail;   /* C06: expected dest contents on success / the complete result cannot fit */
 
 /* ---- destination object */
 typedef struct { unsigned char *p; size_t n; int w; size_t obj; unsigned char prior[4200]; } Dest;
@@ -77,7 +78,7 @@ static void *mkdest(size_t dmax, int w, size_t extra_elems) {
     return D.p;
 }
 static unsigned long dget(size_t i) { return D.w == 1 ? D.p[i] : ((uint32_t *)D.p)[i]; }
-static void begin(const char *fn, const char *rel, const char *fmt, ...) { cur_fn = fn; cur_rel = rel; va_list ap; va_start(ap, fmt); vsnprintf(cur_cs, sizeof cur_cs, fmt, ap); va_end(ap); h_n = 0; fault = 0; errno = 0; n_cases++; }
+static void begin(const char *fn, const char *rel, const char *fmt, ...) { cur_fn = fn; cur_rel = rel; exp_str = NULL; exp_mustfail = 0; va_list ap; va_start(ap, fmt); vsnprintf(cur_cs, sizeof cur_cs, fmt, ap); va_end(ap); h_n = 0; fault = 0; errno = 0; n_cases++; }
 #define CALL(stmt) do { if (sigsetjmp(jb, 1) == 0) { armed = 1; stmt; armed = 0; } } while (0)
 
 /* judge: usable = dest non-null, 0 < dmax <= limit; failed: 1 failure indicated, 0 success, -1 cannot tell; code = returned code (0 unknown) */
@@ -114,6 +115,13 @@ static void judge(int usable, int failed, int code, unsigned flags, int has_dest
         if (h_n == 1 && failed == 0) { snprintf(b, sizeof b, "handler-but-success|code%d", h_code[0]); report(b); return; }
         if (h_n == 1 && failed > 0 && code && code != h_code[0]) { snprintf(b, sizeof b, "code-mismatch|handler%d-ret%d", h_code[0], code); report(b); return; }
         if (h_n == 0 && failed > 0) { snprintf(b, sizeof b, "failure-without-handler|ret%d", code); report(b); return; }
+        return;
+    }
+    if (P == 6) {
+        if (!has_dest || !usable) return;
+        if (exp_mustfail && !reported) { report("success-where-result-cannot-fit"); return; }
+        if (exp_str && !reported) { if (D.w == 1 && strncmp((char *)D.p, exp_str, D.n)) report("wrong-result"); else if (D.w == 1 && !memchr(D.p, 0, D.n)) report("wrong-result"); return; }
+        if (exp_str && reported && !exp_mustfail && strlen(exp_str) < D.n) report("failure-on-valid");
         return;
     }
     if (P == 8) {
@@ -243,6 +251,50 @@ static void g_unicode(void) {
     }
 }
 
+
+/* ---- multibyte / wide converters */
+static void g_conv(void) {
+    int (*f_mbstowcs)(size_t *, wchar_t *, size_t, const char *, size_t, size_t) = dlsym(L, "_mbstowcs_s_chk");
+    int (*f_mbsrtowcs)(size_t *, wchar_t *, size_t, const char **, size_t, mbstate_t *, size_t) = dlsym(L, "_mbsrtowcs_s_chk");
+    int (*f_wcstombs)(size_t *, char *, size_t, const wchar_t *, size_t, size_t) = dlsym(L, "_wcstombs_s_chk");
+    int (*f_wcsrtombs)(size_t *, char *, size_t, const wchar_t **, size_t, mbstate_t *, size_t) = dlsym(L, "_wcsrtombs_s_chk");
+    int (*f_wcrtomb)(size_t *, char *, size_t, wchar_t, mbstate_t *, size_t) = dlsym(L, "_wcrtomb_s_chk");
+    int (*f_wctomb)(int *, char *, size_t, wchar_t, size_t) = dlsym(L, "_wctomb_s_chk");
+    if (!f_mbstowcs || !f_mbsrtowcs || !f_wcstombs || !f_wcsrtombs || !f_wcrtomb || !f_wctomb) { fprintf(stderr, "missing converter symbols\n"); exit(2); }
+    static const char *MS[] = { "", "a", "abc", "\xc3\xa9", "a\xe2\x82\xac", "\xf0\x9f\x98\x80z", "ab\x80", "\xc3" };
+    static const wchar_t *WS[] = { L"", L"a", L"abc", L"\xe9", L"a\x20ac", L"\U0001f600z", L"ab\xd800" };
+    for (int si = 0; si < 8; si++) {
+        size_t bytes = strlen(MS[si]); const char *src = mksrc(1, MS[si], bytes + 1);
+        size_t nch = mbstowcs(NULL, MS[si], 0); int valid = nch != (size_t)-1; if (!valid) nch = bytes;
+        for (size_t dmax = 0; dmax <= nch + 3; dmax++) for (size_t len = 0; len <= nch + 6; len += (len > nch + 1 ? 3 : 1)) for (int which = 0; which < 2; which++) for (int extra = 0; extra < 2; extra++) {
+            char rel[80]; snprintf(rel, sizeof rel, "%s,%s,%s", dmax == 0 ? "dmax0" : nch < dmax ? "fits" : "need>=dmax", len > dmax ? "len>dmax" : "len<=dmax", valid ? "valid" : "invalid-seq");
+            begin(which ? "mbsrtowcs_s" : "mbstowcs_s", rel, "conv mb %d %d %zu %zu %d", which, si, dmax, len, extra);
+            wchar_t *d = mkdest(dmax, 4, extra ? 3 : 0); size_t ret = 0; int r = 0; mbstate_t ps; memset(&ps, 0, sizeof ps); const char *sp = src;
+            if (which) CALL(r = f_mbsrtowcs(&ret, d, dmax, &sp, len, &ps, BOSU)); else CALL(r = f_mbstowcs(&ret, d, dmax, src, len, BOSU));
+            judge(dmax > 0 && dmax <= 1024, r != 0, r, SP | CE | SL, 1);
+        }
+    }
+    for (int si = 0; si < 7; si++) {
+        size_t wl = wcslen(WS[si]); const wchar_t *src = mksrc(1, WS[si], (wl + 1) * sizeof(wchar_t));
+        size_t nb = wcstombs(NULL, WS[si], 0); int valid = nb != (size_t)-1; if (!valid) nb = wl * 2;
+        for (size_t dmax = 0; dmax <= nb + 3; dmax++) for (size_t len = 0; len <= nb + 6; len += (len > nb + 1 ? 3 : 1)) for (int which = 0; which < 2; which++) for (int extra = 0; extra < 2; extra++) {
+            char rel[80]; snprintf(rel, sizeof rel, "%s,%s,%s", dmax == 0 ? "dmax0" : nb < dmax ? "fits" : "need>=dmax", len > dmax ? "len>dmax" : "len<=dmax", valid ? "valid" : "invalid-char");
+            begin(which ? "wcsrtombs_s" : "wcstombs_s", rel, "conv wc %d %d %zu %zu %d", which, si, dmax, len, extra);
+            char *d = mkdest(dmax, 1, extra ? 3 : 0); size_t ret = 0; int r = 0; mbstate_t ps; memset(&ps, 0, sizeof ps); const wchar_t *sp = src;
+            if (which) CALL(r = f_wcsrtombs(&ret, d, dmax, &sp, len, &ps, BOSU)); else CALL(r = f_wcstombs(&ret, d, dmax, src, len, BOSU));
+            judge(dmax > 0 && dmax <= 1024, r != 0, r, SP | CE | SL, 1);
+        }
+    }
+    static const wchar_t WC1[] = { L'a', 0xe9, 0x20ac, 0x1f600, 0xd800 };
+    for (int k = 0; k < 5; k++) for (size_t dmax = 0; dmax <= 7; dmax++) for (int which = 0; which < 2; which++) for (int extra = 0; extra < 2; extra++) {
+        char rel[64]; snprintf(rel, sizeof rel, "%s,%s", dmax == 0 ? "dmax0" : dmax <= (size_t)(k < 4 ? k + 1 : 3) ? "need>=dmax" : "fits", k == 4 ? "invalid-char" : "valid");
+        begin(which ? "wctomb_s" : "wcrtomb_s", rel, "conv c1 %d %d %zu %d", which, k, dmax, extra);
+        char *d = mkdest(dmax, 1, extra ? 3 : 0); size_t ret = 0; int reti = 0, r = 0; mbstate_t ps; memset(&ps, 0, sizeof ps);
+        if (which) CALL(r = f_wctomb(&reti, d, dmax, WC1[k], BOSU)); else CALL(r = f_wcrtomb(&ret, d, dmax, WC1[k], &ps, BOSU));
+        judge(dmax > 0, r != 0, r, SP | CE | SL, 1);
+    }
+}
+
 /* ---- os / io */
 static void g_os(void) {
     int (*strerror_s_)(char *, size_t, int, size_t) = dlsym(L, "_strerror_s_chk");
@@ -260,6 +312,7 @@ static void g_os(void) {
             begin("strerror_s", rel, "strerror %d %zu %d", errs[ei], dmax, extra);
             char *d = mkdest(dmax, 1, extra ? 3 : 0); int r = 0;
             CALL(r = strerror_s_(d, dmax, errs[ei], BOSU));
+            if (!(errs[ei] >= 400 && errs[ei] <= 410) && strlen(ref) < dmax) exp_str = ref;
             judge(dmax > 0, r != 0, r, SP, 1);
         } }
     /* asctime_s / ctime_s */
@@ -276,6 +329,7 @@ static void g_os(void) {
         begin("asctime_s", rel, "asctime %d %zu %d", ti, dmax, extra);
         char *d = mkdest(dmax, 1, extra ? 3 : 0); int r = 0; const struct tm *tp = ti == 6 ? NULL : mksrc(1, &tms[ti], sizeof(struct tm));
         CALL(r = asctime_s_(d, dmax, tp, BOSU));
+        char aref[64]; if (ti <= 1) { asctime_r(&tms[ti], aref); if (dmax >= 26) exp_str = aref; }
         judge(dmax > 0, r != 0, r, SP, 1);
     }
     time_t tts[] = { 0, 1000000000, -1, 313360441200L, 313360441201L, (time_t)1 << 40, -86400L * 366 * 3000 };
@@ -284,6 +338,7 @@ static void g_os(void) {
         begin("ctime_s", rel, "ctime %d %zu", ti, dmax);
         char *d = mkdest(dmax, 1, 0); int r = 0; const time_t *tp = ti == 7 ? NULL : mksrc(1, &tts[ti], sizeof(time_t));
         CALL(r = ctime_s_(d, dmax, tp, BOSU));
+        char cref[64]; if (ti <= 1) { ctime_r(&tts[ti], cref); if (dmax >= 26) exp_str = cref; }
         judge(dmax > 0, r != 0, r, SP, 1);
     }
     /* gmtime_s / localtime_s: the out structure is an exact-fit object */
@@ -292,6 +347,8 @@ static void g_os(void) {
         begin(which ? "localtime_s" : "gmtime_s", rel, "tmconv %d %d %d", which, ti, dn);
         struct tm *d = dn ? NULL : mkdest(sizeof(struct tm), 1, 0); const time_t *tp = ti == 7 ? NULL : mksrc(1, &tts[ti], sizeof(time_t)); struct tm *r = NULL;
         CALL(r = (which ? localtime_s_ : gmtime_s_)(tp, d));
+        if (P == 6 && !fault && r && d && tp) { struct tm t2; memset(&t2, 0, sizeof t2); if (which) localtime_r(&tts[ti], &t2); else gmtime_r(&tts[ti], &t2);
+            if (t2.tm_year != d->tm_year || t2.tm_mon != d->tm_mon || t2.tm_mday != d->tm_mday || t2.tm_hour != d->tm_hour || t2.tm_min != d->tm_min || t2.tm_sec != d->tm_sec || t2.tm_wday != d->tm_wday || t2.tm_yday != d->tm_yday) report("wrong-result"); }
         judge(0, r == NULL, 0, 0, 0);
     }
     /* getenv_s: values of length dmax-1, dmax, dmax+1 */
@@ -304,6 +361,8 @@ static void g_os(void) {
             char *d = mkdest(dmax, 1, extra ? 3 : 0); size_t *lp = ln ? NULL : (size_t *)flush(2, sizeof(size_t)); if (lp) *lp = 0x7777; int r = 0;
             const char *name = mksrc(1, "VERIF_GETENV", 13);
             CALL(r = getenv_s_(lp, dmax ? d : (extra ? d : NULL), dmax, name, BOSU));
+            if (vl < dmax) exp_str = val; else if (dmax) exp_mustfail = 1;
+            if (P == 6 && !fault && r == 0 && lp && *lp != vl) report("wrong-length-out");
             judge(dmax > 0, r != 0, r > 0 ? r : 0, SP | SL, dmax > 0);
         }
     }
@@ -342,10 +401,11 @@ int main(int argc, char **argv) {
     /* replay re-runs the whole (small) group and stops at the named case: cases are cheap and self-describing */
     const char *target = NULL; char tbuf[300] = "";
     if (replay) { for (int i = a + 3; i < argc; i++) { strcat(tbuf, argv[i]); if (i + 1 < argc) strcat(tbuf, " "); } target = tbuf; verbose = 0;
-        sel = !strncmp(tbuf, "printf", 6) ? "printf" : !strncmp(tbuf, "wprintf", 7) ? "wprintf" : (!strncmp(tbuf, "towfc", 5) || !strncmp(tbuf, "wcsfc", 5) || !strncmp(tbuf, "wcsnorm", 7)) ? "unicode" : "os"; }
+        sel = !strncmp(tbuf, "printf", 6) ? "printf" : !strncmp(tbuf, "wprintf", 7) ? "wprintf" : (!strncmp(tbuf, "towfc", 5) || !strncmp(tbuf, "wcsfc", 5) || !strncmp(tbuf, "wcsnorm", 7)) ? "unicode" : !strncmp(tbuf, "conv", 4) ? "conv" : "os"; }
     if (want("printf", sel)) g_printf();
     if (want("wprintf", sel)) g_wprintf();
     if (want("unicode", sel)) g_unicode();
+    if (want("conv", sel)) g_conv();
     if (want("os", sel)) g_os();
     if (replay) {
         int hit = 0; for (int i = 0; i < nsig; i++) if (!strcmp(sigcase[i], target)) { printf("CASE %s\nVERDICT violation %s\n", target, sigs[i]); hit = 1; }
